@@ -176,6 +176,13 @@ T.append(dict(name="c12_native_inverse_exhaustive_n2", module="c12_native", prop
 T.append(dict(name="c12_native_solve_exhaustive_n2", module="c12_native", property="C12", kind="native",
               what="for every grid matrix with |det(A.re)| in {1,2,4,8} and 100 right-hand sides (re in -2..=2, eps in {-1,2}): A * solve(b) == b exactly in re and eps (all parts varying together)",
               bound=NAT, tier="quick", expect_on_unchanged_tree="pass", measured_s=None, flags=LIN))
+NAT3 = ("BOUNDED/TEST (native exhaustive enumeration, NOT a Kani proof): n = 3; ALL real-part matrices over the grid, each with 3 fixed "
+        "non-symmetric integer eps patterns (one with 9 distinct entries) and 3 integer right-hand sides; exactness asserted only where an "
+        "independent rational elimination (same pivot rule) finds every pivot real part to be +- a power of two")
+for gname, gdesc in [("grid1", "entries in {-1,0,1}: 19 683 matrices, 11 232 kept"), ("grid2", "entries in -2..=2: 1 953 125 matrices, 768 800 kept")]:
+    T.append(dict(name=f"c12_native_lu_exhaustive_n3_{gname}", module="c12_native", property="C12", kind="native",
+                  what="n = 3: (1) singular <=> Err; (2) determinant() == integer cofactor determinant in re and eps (Jacobi), every row-exchange pattern exercised; (3) A*solve(b) == b exactly; (4) A*inverse() == I and inverse()*A == I exactly; counts reported as evidence",
+                  bound=NAT3 + "; " + gdesc, tier="quick", expect_on_unchanged_tree="pass", measured_s=None, flags=LIN))
 
 # ------------------------------------------------------------------ C13
 NANB = "fixed sizes; all bit patterns, NaN parts compared as 'NaN maps to NaN'"
